@@ -60,11 +60,11 @@ CHECKS = {
                                 {"test": "TestC11", "variant": "386", "checks": 8000, "steps": 60, "shards": 2, "timeout": 3000}],
                 essential=["inspath_pathsplit_long", "merge", "merge_crossing_inline_limit", "gained_node16", "gained_node48", "gained_node256",
                            "lost_node16", "lost_node48", "lost_node256"]),
-    "C12": hist("TestC12", 1200, 60, 4000, 100,
+    "C12": hist("TestC12", 800, 60, 3000, 100,
                 essential=["cross_tree_reuse_node4", "cross_tree_reuse_node16", "cross_tree_reuse_node48", "cross_tree_reuse_node256", "twin_created"]),
     "C13": hist("TestC13", 5000, 40, 12000, 60,
                 essential=["arena_spare_calls", "range", "prefix"]),
-    "C14": hist("TestC14", 5000, 40, 10000, 60,
+    "C14": hist("TestC14", 2000, 40, 5000, 60,
                 extra_quick=[{"test": "TestClosureC14", "timeout": 600}],
                 essential=["iter_nontrivial_all", "iter_nontrivial_backward", "iter_nontrivial_prefix", "iter_nontrivial_range",
                            "iter_nontrivial_topk", "iter_nontrivial_bottomk"]),
